@@ -30,6 +30,7 @@ import PoetryVerif.Proofs.MarkerAlgSoundFullL
 import PoetryVerif.Proofs.MarkerAlgSoundListCtor
 import PoetryVerif.Proofs.MarkerAlgSoundPairLL
 import PoetryVerif.Proofs.MarkerAlgSoundInvLL
+import PoetryVerif.Proofs.MarkerAlgSoundInvRep
 import PoetryVerif.Proofs.PyConvPairFinal
 import PoetryVerif.Proofs.PyConvPairCompat
 import PoetryVerif.Proofs.MarkerPrint
@@ -935,6 +936,22 @@ theorem invert_sound_lists_both {ex : List String} (hX : E.extras = some ex) {X 
     rw [holds_is_validate E r (M.good_mono (fun l hl => fullInvLeafLL_evaluable hX hE hl) r this.1)]
     exact congrArg _ this.2
 
+/-- **Inversion of `extra` atomic unions with repeated values** (the item formerly listed as unproved): on the
+quotable string / `extra` fragment WITHOUT the condition that the extras of an atomic union are pairwise different
+(`InvReadyR`), `invert` returns a marker that validates to the negation.  The inverse of
+`extra == "a" or extra != "a" or extra == "b"` is the atomic multi marker `extra != "a" and extra == "a" and
+extra != "b"`, which repeats the value: it is not a leaf of the merge fragment (an `ExtraMultiConstraint` of that
+fragment mentions every value once) but evaluates like one (`xMultiRep_eval`: evaluation never uses that the values
+differ); inversion never merges, so the congruence-only De Morgan theorem applies on the widened fragment
+`InvLeafR`.  Replayed on the real code (`AtomicMarkerUnion("extra", …).invert()`). -/
+theorem invert_sound_repeated_extras {ex : List String} (hX : E.extras = some ex) {a r : M}
+    (ha : M.Good (InvReadyR E) a) (h : a.invert = .ok r) :
+    M.Good (InvLeafR E) r ∧ M.validate E r = .ok (!holds E a) := by
+  have := M.invert_sound_invR hX ha h
+  refine ⟨this.1, ?_⟩
+  rw [holds_is_validate E r (M.good_mono (fun l hl => invLeafR_evaluable hX hl) r this.1)]
+  exact congrArg _ this.2
+
 /-- **Inversion preserves truth on every marker of single markers in C06's agreement domain** — no closure
 under merging is needed (inversion never merges), so this covers item classes outside the intersect/union
 domain: a marker all of whose leaves are built from items that agree with the PEP 508 reference evaluator
@@ -1028,8 +1045,8 @@ there, U = unproved, no counterexample known, E = an exception instead of a mark
    as single leaves (inversion is proved: `lists_ready_to_invert`).
 8. U reversed operands on the version variables (`"3.8" <= python_version`), string values with white space,
    quotes, `|`, `,` or a leading `=` (known finding `generic-literal-whitespace`), `extra` with `in`/`not in`
-   (rejected by the constructor), a `platform_release` that is not a version (`unmodelled`), inversion of an
-   `extra` atomic union with repeated values.
+   (rejected by the constructor), a `platform_release` that is not a version (`unmodelled`).  (Inversion of an
+   `extra` atomic union with repeated values is proved: `invert_sound_repeated_extras`.)
 The statement as a whole is false (items 1–3, 5). -/
 def C07_leaf_facts_full_statement : Prop :=
   ∀ E : Env, ∃ G : Leaf → Prop, (∀ l, ParsedLeaf l → (∃ b, l.validate E = .ok b) → G l) ∧
